@@ -151,3 +151,7 @@ where
         }
     }
 }
+
+#[cfg(kani)]
+#[path = "/verif/harness/foyer-storage/keeper.rs"]
+mod verif_kani;
